@@ -98,16 +98,41 @@ type instrStats struct {
 var istats instrStats
 
 // prepare instruments the tree and writes the scratch go.mod.
+// r9Off: the instrumented copy did not compile with the access notes of rule
+// R9 and was instrumented again without them (the lockset checker then sees
+// nothing; everything else is unaffected). Recorded in the evidence.
+var r9Off bool
+
+func instrumentRepo(noAccess bool) {
+	os.RemoveAll(filepath.Join(scratch, "flyt"))
+	args := []string{"-src", repoDir(), "-dst", filepath.Join(scratch, "flyt"), "-stats", filepath.Join(scratch, "instr.json")}
+	if noAccess {
+		args = append(args, "-noaccess")
+	}
+	out, err := runCmd(verifDir, goEnv, filepath.Join(verifDir, "bin", "instrument"), args...)
+	if err != nil {
+		die(2, "instrumentation of %s failed (build trouble, not a verdict):\n%s", repoDir(), out)
+	}
+}
+
 func prepare() {
 	var err error
 	scratch, err = os.MkdirTemp("", "vcheck-")
 	if err != nil {
 		die(2, "%v", err)
 	}
-	out, err := runCmd(verifDir, goEnv, filepath.Join(verifDir, "bin", "instrument"), "-src", repoDir(), "-dst", filepath.Join(scratch, "flyt"), "-stats", filepath.Join(scratch, "instr.json"))
-	if err != nil {
-		die(2, "instrumentation of %s failed (build trouble, not a verdict):\n%s", repoDir(), out)
-	}
+	instrumentRepo(false)
+	defer func() {
+		// the instrumented package must compile on its own; if it does not with
+		// R9's notes, fall back to the copy without them rather than fail
+		if out, err := runCmd(filepath.Join(verifDir, "engines"), goEnv, "go1.26.8", "build", "-modfile="+filepath.Join(scratch, "go.mod"), "github.com/mark3labs/flyt"); err != nil {
+			fmt.Fprintf(os.Stderr, "vcheck: instrumented copy does not compile with rule R9, instrumenting again without it:\n%s\n", out)
+			r9Off = true
+			instrumentRepo(true)
+			b, _ := os.ReadFile(filepath.Join(scratch, "instr.json"))
+			json.Unmarshal(b, &istats)
+		}
+	}()
 	b, _ := os.ReadFile(filepath.Join(scratch, "instr.json"))
 	json.Unmarshal(b, &istats)
 	gomod := fmt.Sprintf(`module verif.local/engines
@@ -637,7 +662,7 @@ func check(prop, tier string) int {
 		cov["runs_per_hour"] = int(float64(evals) / wall * 3600)
 	}
 	cov["budget_cut_short"] = timedOut
-	cov["instrumentation"] = map[string]any{"sites": istats.Sites, "uninstrumented_sites": istats.Uninstr, "source_sha": istats.SourceSHA, "files": istats.Files}
+	cov["instrumentation"] = map[string]any{"sites": istats.Sites, "uninstrumented_sites": istats.Uninstr, "source_sha": istats.SourceSHA, "files": istats.Files, "rule_r9_dropped_because_copy_did_not_compile": r9Off}
 	cov["real_vs_stub"] = map[string]string{
 		"real":                         "every line of flyt's root package (instrumented copy of the working tree), Go channels, select, context, encoding/json, reflect",
 		"simulated":                    "sync.Mutex/RWMutex/WaitGroup/Once (simsync), goroutine scheduling at instrumented points (seeded scheduler), the clock (testing/synctest fake clock), map iteration order",
